@@ -164,7 +164,7 @@ def check(prop, tier, seed, shard_filter=None):
         'wall_s': round(time.time() - t0, 2),
         'violations': len(unknown),
     }
-    EVIDENCE_DIR.mkdir(exist_ok=True)
+    EVIDENCE_DIR.mkdir(parents=True, exist_ok=True)
     with open(EVIDENCE_DIR / f'{prop}.json', 'w') as fd:
         json.dump(ev, fd, indent=1, default=repr)
 
